@@ -14,17 +14,20 @@ P == INSTANCE Prop_C05e
 CONSTANTS MaxConn, Msgs, MaxCnt, ChanCap, MaxInject,
           RouteByID,      \* TRUE: feed looks the session up by the message's SessionID (mutant: delivers to the newest session)
           DeleteOnClose,  \* TRUE: close removes the session from the map (mutant: a later message is sent on the closed channel)
+          SendUnderLock,  \* TRUE: feed holds the read lock from the lookup to the channel send (mutant: releases it in between)
           FreshIDs        \* TRUE: IDs are never reused (mutant: the lowest free ID is taken)
 
 VARIABLES conns,     \* sequence of [id, open, q (channel), dpkt, dslots, eof]
           map,       \* set of indices into conns that are in the manager's map
-          nextID, closed, msg, ninj, mon
+          nextID, closed, msg, ninj, mon,
+          inflight   \* mutant only: <<conn index, fragment>> looked up but not yet sent (<<>> = none)
 
-vars == <<conns, map, nextID, closed, msg, ninj, mon>>
+vars == <<conns, map, nextID, closed, msg, ninj, mon, inflight>>
 Feed(es) == LET RECURSIVE R(_, _) R(m, s) == IF s = <<>> THEN m ELSE R(P!MonStep(m, Head(s), 0), Tail(s)) IN mon' = R(mon, es)
 E(name) == [ev |-> name, scn |-> 0]
 
 NewUDP ==
+  /\ UNCHANGED inflight
   /\ Len(conns) < MaxConn
   /\ IF closed THEN Feed(<< E("NewUDP") @@ [id |-> 0, ok |-> FALSE] >>) /\ UNCHANGED <<conns, map, nextID>>
      ELSE LET used == {conns[i].id : i \in map}
@@ -37,23 +40,34 @@ NewUDP ==
 
 \* the server sends fragment fid of message m (cnt fragments) to session sid
 Inject(m, sid, fid) ==
-  /\ ~closed /\ ninj < MaxInject /\ fid < msg[m].cnt
+  /\ ~closed /\ ninj < MaxInject /\ fid < msg[m].cnt /\ inflight = <<>>
   /\ ninj' = ninj + 1
   /\ LET f == [msg |-> m, fid |-> fid, cnt |-> msg[m].cnt]
          targets == IF RouteByID THEN {i \in map : conns[i].id = sid}
                     ELSE IF map = {} THEN {} ELSE {CHOOSE i \in map : \A j \in map : j <= i}
-     IN IF targets = {} THEN UNCHANGED conns
+     IN IF targets = {} THEN UNCHANGED <<conns, inflight>>
         ELSE LET i == CHOOSE x \in targets : TRUE IN
-             IF ~conns[i].open THEN UNCHANGED conns     \* send on closed channel: the real code would panic; see PanicOnClosed
-             ELSE IF Len(conns[i].q) >= ChanCap THEN UNCHANGED conns
-             ELSE conns' = [conns EXCEPT ![i].q = Append(@, f)]
+             IF ~SendUnderLock THEN inflight' = <<i, f>> /\ UNCHANGED conns      \* lock released: the send happens later (FeedSend)
+             ELSE /\ UNCHANGED inflight
+                  /\ IF ~conns[i].open THEN UNCHANGED conns     \* send on closed channel: the real code would panic; see PanicOnClosed
+                     ELSE IF Len(conns[i].q) >= ChanCap THEN UNCHANGED conns
+                     ELSE conns' = [conns EXCEPT ![i].q = Append(@, f)]
   /\ Feed(<< E("Inject") @@ [sid |-> sid, msg |-> m, fid |-> fid, cnt |-> msg[m].cnt] >>)
   /\ UNCHANGED <<map, nextID, closed, msg>>
 
-\* DeleteOnClose = FALSE: a closed session stays in the map and feed sends on its closed channel
-PanicOnClosed == \E i \in map : ~conns[i].open
+FeedSend ==                                 \* mutant only: the channel send after the lock was released
+  /\ inflight # <<>>
+  /\ LET i == inflight[1] IN
+       IF conns[i].open /\ Len(conns[i].q) < ChanCap THEN conns' = [conns EXCEPT ![i].q = Append(@, inflight[2])] ELSE UNCHANGED conns
+  /\ inflight' = <<>>
+  /\ UNCHANGED <<map, nextID, closed, msg, ninj, mon>>
+
+\* DeleteOnClose = FALSE: a closed session stays in the map and feed sends on its closed channel;
+\* SendUnderLock = FALSE: the session was closed between the lookup and the send
+PanicOnClosed == (\E i \in map : ~conns[i].open) \/ (inflight # <<>> /\ ~conns[inflight[1]].open)
 
 Receive(i) ==
+  /\ UNCHANGED inflight
   /\ i \in 1..Len(conns) /\ ~conns[i].eof
   /\ IF conns[i].q # <<>>
      THEN LET f == Head(conns[i].q)
@@ -78,6 +92,7 @@ Receive(i) ==
   /\ UNCHANGED <<map, nextID, closed, msg, ninj>>
 
 Close(i) ==
+  /\ UNCHANGED inflight
   /\ i \in 1..Len(conns) /\ conns[i].open
   /\ conns' = [conns EXCEPT ![i].open = FALSE]
   /\ map' = IF DeleteOnClose THEN map \ {i} ELSE map
@@ -85,6 +100,7 @@ Close(i) ==
   /\ UNCHANGED <<nextID, closed, msg, ninj>>
 
 Loss ==
+  /\ UNCHANGED inflight
   /\ ~closed /\ closed' = TRUE
   /\ conns' = [i \in 1..Len(conns) |-> [conns[i] EXCEPT !.open = FALSE]]
   /\ map' = {}
@@ -93,9 +109,9 @@ Loss ==
 
 Init == /\ conns = <<>> /\ map = {} /\ nextID = 1 /\ closed = FALSE /\ ninj = 0
         /\ msg \in [Msgs -> [sid : 1..MaxConn, cnt : 1..MaxCnt]]
-        /\ mon = P!MonInit
+        /\ mon = P!MonInit /\ inflight = <<>>
 
-Next == \/ NewUDP \/ Loss
+Next == \/ NewUDP \/ Loss \/ FeedSend
         \/ \E m \in Msgs, fid \in 0..(MaxCnt - 1) : Inject(m, msg[m].sid, fid)
         \/ \E i \in 1..MaxConn : Receive(i) \/ Close(i)
 
